@@ -2,31 +2,217 @@
 package c01
 
 import (
+	"math"
+
 	"github.com/DemoHn/Zn/pkg/exec"
 	r "github.com/DemoHn/Zn/pkg/runtime"
 	"github.com/DemoHn/Zn/pkg/value"
 	"zsym/zv"
 )
 
-func run(src string, in r.ElementMap) (res r.Element, err error, panicked interface{}) {
+func run(src []rune, in r.ElementMap) (res r.Element, err error, panicked interface{}) {
 	defer func() {
 		if p := recover(); p != nil {
 			panicked = p
 		}
 	}()
-	res, err = exec.NewInterpreter("verif").LoadScript([]rune(src)).Execute(in)
+	res, err = exec.NewInterpreter("verif").LoadScript(src).Execute(in)
 	return
 }
 
-// H_Smoke: 输入A、B ; 输出 A + B * 3 with symbolic doubles
-func H_Smoke() {
+// ---- operand values
+
+const (
+	kNum = iota
+	kBool
+	kText
+	kNull
+)
+
+type operand struct {
+	kind int
+	num  float64
+	b    bool
+	text string
+}
+
+func symOperand(name string, kinds int) (operand, r.Element) {
+	k := zv.Choose(kinds)
+	switch k {
+	case kNum:
+		f := zv.Float64(name)
+		return operand{kind: kNum, num: f}, value.NewNumber(f)
+	case kBool:
+		b := zv.Bool(name)
+		return operand{kind: kBool, b: b}, value.NewBool(b)
+	case kText:
+		c := zv.Rune(name)
+		zv.Assume(c == 'x' || c == 'y')
+		s := string([]rune{c})
+		return operand{kind: kText, text: s}, value.NewString(s)
+	}
+	return operand{kind: kNull}, value.NewNull()
+}
+
+// ---- the specification of one binary operator (manual chapters 3 and 5)
+
+type result struct {
+	isErr  bool
+	isBool bool
+	num    float64
+	b      bool
+}
+
+const (
+	opAdd = iota
+	opSub
+	opMul
+	opDiv
+	opIntDiv
+	opMod
+	opEq
+	opNe
+	opGt
+	opLt
+	opGe
+	opLe
+	opAnd
+	opOr
+)
+
+func errR() result              { return result{isErr: true} }
+func numR(f float64) result     { return result{num: f} }
+func boolR(b bool) result       { return result{isBool: true, b: b} }
+func fromBool(o operand) result { return boolR(o.b) }
+
+func structEq(a, b operand) bool {
+	if a.kind != b.kind {
+		return false
+	}
+	switch a.kind {
+	case kNum:
+		return a.num == b.num
+	case kBool:
+		return a.b == b.b
+	case kText:
+		return a.text == b.text
+	}
+	return true
+}
+
+func specBinary(op int, a, b operand) result {
+	switch op {
+	case opAdd, opSub, opMul, opDiv, opIntDiv, opMod:
+		if a.kind != kNum || b.kind != kNum {
+			return errR()
+		}
+		switch op {
+		case opAdd:
+			return numR(a.num + b.num)
+		case opSub:
+			return numR(a.num - b.num)
+		case opMul:
+			return numR(a.num * b.num)
+		}
+		if b.num == 0 {
+			return errR()
+		}
+		switch op {
+		case opDiv:
+			return numR(a.num / b.num)
+		case opIntDiv:
+			return numR(math.Floor(a.num / b.num))
+		}
+		return numR(a.num - math.Floor(a.num/b.num)*b.num)
+	case opEq:
+		return boolR(structEq(a, b))
+	case opNe:
+		return boolR(!structEq(a, b))
+	case opGt, opLt, opGe, opLe:
+		if a.kind != kNum || b.kind != kNum {
+			return errR()
+		}
+		switch op {
+		case opGt:
+			return boolR(a.num > b.num)
+		case opLt:
+			return boolR(a.num < b.num)
+		case opGe:
+			return boolR(a.num >= b.num)
+		}
+		return boolR(a.num <= b.num)
+	}
+	// 且 / 或 (both operands evaluated here: no side effects in H1)
+	if a.kind != kBool {
+		return errR()
+	}
+	if op == opAnd && !a.b {
+		return boolR(false)
+	}
+	if op == opOr && a.b {
+		return boolR(true)
+	}
+	if b.kind != kBool {
+		return errR()
+	}
+	return boolR(b.b)
+}
+
+type opSpelling struct {
+	text string
+	op   int
+}
+
+var spellings = []opSpelling{
+	{"+", opAdd}, {"-", opSub}, {"*", opMul}, {"/", opDiv}, {"|", opIntDiv}, {"%", opMod},
+	{"==", opEq}, {"/=", opNe}, {">", opGt}, {"<", opLt}, {">=", opGe}, {"<=", opLe},
+	{"等于", opEq}, {"不等于", opNe}, {"大于", opGt}, {"小于", opLt}, {"不小于", opGe}, {"不大于", opLe},
+	{"为", opEq}, {"不为", opNe}, {"且", opAnd}, {"或", opOr},
+}
+
+func checkResult(res r.Element, err error, p interface{}, want result, tag string) {
+	zv.Assert(p == nil, tag+": no Go panic")
+	if want.isErr {
+		zv.Reach("error")
+		zv.Assert(err != nil, tag+": an error, never a value")
+		return
+	}
+	zv.Assert(err == nil, tag+": a value, not an error")
+	if want.isBool {
+		zv.Reach("bool")
+		bv, ok := res.(*value.Bool)
+		zv.Assert(ok, tag+": result is a boolean")
+		zv.Assert(bv.GetValue() == want.b, tag+": boolean value")
+		return
+	}
+	zv.Reach("number")
+	nv, ok := res.(*value.Number)
+	zv.Assert(ok, tag+": result is a number")
+	zv.Assert(zv.SameFloat(nv.GetValue(), want.num), tag+": numeric value (IEEE-754, bit for bit)")
+}
+
+// H1_Operators: every operator spelling on every pair of operand kinds and
+// all values (doubles unconstrained: NaN, infinities, signed zeros, subnormals).
+func H_Operators() {
+	sp := spellings[zv.Choose(len(spellings))]
+	a, ea := symOperand("a", 4)
+	b, eb := symOperand("b", 4)
+	// NaN under structural equality is unspecified in the manual
+	if (sp.op == opEq || sp.op == opNe) && a.kind == kNum && b.kind == kNum {
+		zv.Assume(a.num == a.num && b.num == b.num)
+	}
+	// text % list is formatting (C14)
+	zv.Assume(!(sp.op == opMod && a.kind == kText))
+	src := []rune("输入A、B\n输出 A " + sp.text + " B")
+	res, err, p := run(src, r.ElementMap{"A": ea, "B": eb})
+	checkResult(res, err, p, specBinary(sp.op, a, b), "H1 "+sp.text)
+}
+
+// W_Operators_Witness: vacuity guard.
+func W_Operators_Witness() {
 	a := zv.Float64("a")
 	b := zv.Float64("b")
-	res, err, p := run("输入A、B\n输出 A + B * 3", r.ElementMap{"A": value.NewNumber(a), "B": value.NewNumber(b)})
-	zv.Assert(p == nil, "no panic")
-	zv.Assert(err == nil, "no error")
-	n, ok := res.(*value.Number)
-	zv.Assert(ok, "number result")
-	zv.Assert(zv.SameFloat(n.GetValue(), a+b*3), "value = a+b*3")
-	zv.Reach("value")
+	res, _, _ := run([]rune("输入A、B\n输出 A - B"), r.ElementMap{"A": value.NewNumber(a), "B": value.NewNumber(b)})
+	nv := res.(*value.Number)
+	zv.Assert(zv.SameFloat(nv.GetValue(), b-a), "witness")
 }
